@@ -220,9 +220,26 @@ def c_history_bonus(site, fx):
 
 
 def c_history_decay(site, fx):
-    if not (in_fn(site, "HistoryTable::decay") and site.family in ("arith", "divzero")):
+    if site.family not in ("arith", "divzero"):
         return False
-    vals = caller_const_arg(site, fx, 2)
+    body = site.body
+    if body.kind == "Closure":
+        # `.for_each(|score| *score /= decay_factor)`: the closure captures nothing but the factor parameter
+        parent = fx.bodies.get(body.parent)
+        if parent is None or not norm(parent.name).endswith("HistoryTable::decay"):
+            return False
+        caps = []
+        for bb, j, st in parent.stmts():
+            rv = st.get("rv")
+            if rv and rv["k"] == "agg" and rv.get("agg") == "closure" and rv.get("closure") == body.name:
+                caps = [deep_strip(parent.expr(o, expand_named=True, at=bb)) for o in rv["ops"]]
+        if not caps or not all(isinstance(c, tuple) and c[:2] == ("arg", 2) for c in caps):
+            return False
+        body = parent
+    elif not in_fn(site, "HistoryTable::decay"):
+        return False
+    view = type("V", (), {"body": body})()
+    vals = caller_const_arg(view, fx, 2)
     return vals is not None and all(v not in (0, -1) for v in vals)
 
 
